@@ -359,3 +359,35 @@ class IntegrateStub:
         val = sx.cur().fresh('quad')
         self.calls.append({'f': f, 'a': a, 'b': b, 'kw': kw, 'value': val})
         return (val, 0.0)
+
+
+class StatsStub:
+    """scipy.stats.linregress contract stub with the *exact-fit lemma*:
+    if all points lie on one line y = a x + b (x not constant) then slope = a, intercept = b, r^2 = 1, stderr = 0;
+    otherwise nothing is known about the result (fresh symbols, |r| <= 1, stderr >= 0).  Calls are recorded."""
+
+    def __init__(self):
+        self.calls = []
+
+    def linregress(self, x, y=None, **kw):
+        eng = sx.cur()
+        xs, ys = list(x), list(y)
+        if len(xs) != len(ys):
+            raise ValueError("all the input array dimensions must match")
+        if len(xs) < 2:
+            raise ValueError("Inputs must not be empty.")
+        a = (ys[1] - ys[0]) / (xs[1] - xs[0])
+        b = ys[0] - a * xs[0]
+        cond = [sx.eq(ys[i], a * xs[i] + b) for i in range(2, len(xs))]
+        cond = [c for c in cond if c is not True]
+        exact = not cond or (all(c is not False for c in cond) and eng._check(_z3.Not(_z3.And(*[sx._b(c) for c in cond]))) == _z3.unsat)
+        if exact:
+            r = eng.fresh('r')
+            eng.assume(_z3.And(r.e * r.e == 1))
+            res = (a, b, r, sx.SymReal(0), sx.SymReal(0))
+        else:
+            s, c, r, se = eng.fresh('slope'), eng.fresh('icpt'), eng.fresh('r'), eng.fresh('stderr')
+            eng.assume(_z3.And(r.e >= -1, r.e <= 1, se.e >= 0))
+            res = (s, c, r, sx.SymReal(0), se)
+        self.calls.append({'x': xs, 'y': ys, 'exact': exact, 'result': res})
+        return res
